@@ -171,6 +171,7 @@ func csGatesCase(c *kit.Case) {
 		g.env.shape = fmt.Sprintf("gates/keys=%v/tol=%s", g.keys, g.tol)
 	}
 	runKeyGroups(r, gs, "gates", t, "cs_gates_requests_under_a_key_not_configured_for_that_gate")
+	runGroupTimeProbes(r, gs, "gates", t, kit.N(12, 60))
 	t["cs_gates_cases"]++
 	c.Sig(true, "cs-gates", layout(gs))
 	if c.Index < 2 {
@@ -291,6 +292,10 @@ func e2eGroupsCase(c *kit.Case) {
 		tls = append(tls, fmt.Sprintf("%s: %d tokens, %d presentations", g.path, len(toks), len(steps)))
 	}
 	t["e2e_groups_jwt_requests"] += t["jwt_requests"] - beforeJ
+	// ---- signature groups once more: unusual timestamps, judged by the tolerance of the route they are sent to
+	before = t["cs_requests"]
+	runGroupTimeProbes(r, gs, "groups", t, kit.N(10, 60))
+	t["e2e_groups_cs_requests"] += t["cs_requests"] - before
 	t["e2e_groups_servers"]++
 	c.Sig(true, "e2e-groups", layout(gs), jwtFirst)
 	if c.Index < 2 {
